@@ -33,13 +33,15 @@ _Bool CEncodedStreamReader_c8_256_IsEnd___k(const struct CEncodedStreamReader_c8
 static inline struct CValueMeta* vvec_CValueMeta_emplace_back_rku64_u64_b__rku64_xu64_xb(vvec_CValueMeta* v, const unsigned long* off, unsigned long* size, _Bool* esc) {
   v->n++; v->last_off = *off; v->last_size = *size; if (!(*off <= g_buf->size && *size <= g_buf->size - *off)) v->inside = 0; static long cell[4]; return (struct CValueMeta*)cell; }
 #define INV(s) ((s)->mCurrentPos <= (s)->mDecodedBuffer.size && (!g_eof_seen || g_bytes == 0) && (!((s)->mCurrentPos == (s)->mDecodedBuffer.size && g_bytes == 0) || g_eof_seen))
+/* sizes stay representable: one consumed byte yields at most 3 characters, so 3*bytes left + buffer size never grows */
+#define CAP(s) (g_bytes <= ((size_t)1 << 52) && (s)->mDecodedBuffer.size <= ((size_t)1 << 54) && 3 * g_bytes + (s)->mDecodedBuffer.size <= ((size_t)1 << 54))
 #define MEASURE(s) (4 * g_bytes + ((s)->mDecodedBuffer.size - (s)->mCurrentPos))
 #define VERIF_LOOP_CCsvStreamReader_ParseNextLine__rvvec_CValueMeta_1 \
   __CPROVER_assigns(isEndLine, self->mCurrentPos, self->mDecodedBuffer.size, g_bytes, g_eof_seen, g_chunks, g_cell, out_values->n, out_values->last_off, out_values->last_size, out_values->inside, __verif_exc, __verif_exc_code VERIF_TMPS_CCsvStreamReader_ParseNextLine__rvvec_CValueMeta) \
-  __CPROVER_loop_invariant(__verif_exc == 0 && self->mCurrentPos <= self->mDecodedBuffer.size && (!g_eof_seen || g_bytes == 0) && g_bytes <= ((size_t)1 << 50) && self->mDecodedBuffer.size <= ((size_t)1 << 52) && out_values->inside && g_buf == &self->mDecodedBuffer && (!isEndLine || out_values->n >= 1))
+  __CPROVER_loop_invariant(__verif_exc == 0 && self->mCurrentPos <= self->mDecodedBuffer.size && (!g_eof_seen || g_bytes == 0) && CAP(self) && out_values->inside && g_buf == &self->mDecodedBuffer && (!isEndLine || out_values->n >= 1) && out_values->n <= self->mCurrentPos + (isEndLine ? 1u : 0u))
 #define VERIF_LOOP_CCsvStreamReader_ParseNextLine__rvvec_CValueMeta_2 \
   __CPROVER_assigns(isEndLine, endValuePos, doubleQuotesCount, precedingCrPos, self->mCurrentPos, self->mDecodedBuffer.size, g_bytes, g_eof_seen, g_chunks, g_cell, __verif_exc, __verif_exc_code) \
-  __CPROVER_loop_invariant(__verif_exc == 0 && startValuePos <= self->mCurrentPos && self->mCurrentPos <= self->mDecodedBuffer.size && (!g_eof_seen || g_bytes == 0) && g_bytes <= ((size_t)1 << 50) && self->mDecodedBuffer.size <= ((size_t)1 << 52) && !isEndLine && (precedingCrPos == 18446744073709551615UL || (startValuePos <= precedingCrPos && precedingCrPos < self->mCurrentPos))) \
+  __CPROVER_loop_invariant(__verif_exc == 0 && startValuePos <= self->mCurrentPos && self->mCurrentPos <= self->mDecodedBuffer.size && (!g_eof_seen || g_bytes == 0) && CAP(self) && !isEndLine && (precedingCrPos == 18446744073709551615UL || (startValuePos <= precedingCrPos && precedingCrPos < self->mCurrentPos))) \
   __CPROVER_decreases(MEASURE(self))
 /* state behind the inner loop: the value just delimited lies inside the buffer */
 #define VERIF_AFTER_LOOP_CCsvStreamReader_ParseNextLine__rvvec_CValueMeta_2 __CPROVER_assert(startValuePos <= endValuePos && endValuePos <= self->mDecodedBuffer.size && endValuePos <= self->mCurrentPos, "C09,C10: a value is delimited inside the decoded buffer, in front of the scan position");
